@@ -587,6 +587,8 @@ scen_cfg(const tscen *sc, tp_cfg *cc, tp_cfg *sv, uint16_t *sb, uint64_t seedv)
 	cc->suites = sb; cc->nsuites = 1; cc->vmin = cc->vmax = sc->version;
 	sv->keykind = tp_key_for_suite(tp_suite_find(sb[0]), 0);
 	cc->client_auth = sc->cauth; sv->client_auth = sc->cauth ? 1 : 0;
+	/* RSA client certificates: alone, with its intermediate, and an RSA-4096 key (CertificateVerify with a 512-byte signature) */
+	if (sc->cauth == 1) cc->chain_kind = (int)(((unsigned)sc->kx + sc->version) % 3);
 	/* every other scenario: a client with 837 / 597-byte buffers: its hello asks for 512-byte fragments, the server's
 	   flight and data leave in many small records (what the server emits after the extension must not depend on
 	   where the bytes of the hello were cut) */
@@ -729,7 +731,7 @@ mode_tls(long long seed, int worker, int nworkers, int nrand, int nfault)
 	static const char *kxn[5] = { "RSA", "ECDHE_RSA", "ECDHE_ECDSA", "ECDH_RSA", "ECDH_ECDSA" };
 	int idx = 0, kx, res, ca, role;
 	unsigned v;
-	for (kx = 0; kx < 5; kx ++) for (v = 0x0301; v <= 0x0303; v ++) for (res = 0; res < 2; res ++) for (ca = 0; ca < 3; ca += 2) for (role = 0; role < 2; role ++) {
+	for (kx = 0; kx < 5; kx ++) for (v = 0x0301; v <= 0x0303; v ++) for (res = 0; res < 2; res ++) for (ca = 0; ca < 3; ca ++) for (role = 0; role < 2; role ++) {
 		tscen sc;
 		uint64_t seedv = (uint64_t)seed * 9973 + (uint64_t)idx;
 		outcome ref, o;
